@@ -143,7 +143,6 @@ def l124b(with_callback):
     c = u.conn
     c.clock = clock
     check(c.status == Status.CONNECTING, 'connect() starts CONNECTING')
-    check(c.time_client_hello_sent == t_c, 'the connect attempt is timed from the moment of connect()')
     elapsed = 0
     was_expired = False
     for k in (1, 2):
